@@ -12,7 +12,7 @@ import (
 )
 
 func init() {
-	register("C01", "Decides the structural basis of 'results equal the sequential reference under any scheduling' in the batched executor: (1) source/destination pairing - an alignment inference over slices (declared pairs WorkUnit.sources/destinations and the (sources, destinations) parameters; slices grown by appends in one block; make(len(S)); batch resolver results) proves that every index into a destination-like slice is the induction value of a loop over an aligned slice, that every WorkUnit literal and every resolve*Batch call receives an aligned pair, and that the bucket expressions of splitToNWorkUnits agree; the schemabuilder batch adapter maps results back by the same index it handed out; (2) Flatten merges both the selections and the fragments of every same-alias selection and copies name/alias/args from a member of the same group; (3) Executor.Execute serialises only after scheduler.Run; the goroutine scheduler does wg.Add before `go`, defers wg.Done and waits after enqueueing; (4) resolveUnionBatch resolves each member type once against a selection set carrying all applicable fragments (single writer per destination), and a non-nil member is always filled with an object; (5) resolveBatch's type dispatch is total; (6) the memoisation key of expensive fields names field, source and selection. Not decided: equality with a reference evaluator for all schemas/queries, data-race freedom of outputNode.res, user resolvers.", c01)
+	register("C01", "Decides the structural basis of 'results equal the sequential reference under any scheduling' in the batched executor: (1) source/destination pairing - an alignment inference over slices (declared pairs WorkUnit.sources/destinations and the (sources, destinations) parameters; slices grown by appends in one block; make(len(S)); batch resolver results) proves that every index into a destination-like slice is the induction value of a loop over an aligned slice, that every WorkUnit literal and every resolve*Batch call receives an aligned pair, and that the bucket expressions of splitToNWorkUnits agree; the schemabuilder batch adapter maps results back by the same index it handed out; (2) Flatten merges both the selections and the fragments of every same-alias selection and copies name/alias/args from a member of the same group; (3) Executor.Execute serialises only after scheduler.Run; the goroutine scheduler does wg.Add before `go`, defers wg.Done and waits after enqueueing; (4) resolveUnionBatch resolves each member type once against a selection set carrying all applicable fragments (single writer per destination), and a non-nil member is always filled with an object; (5) resolveBatch's type dispatch is total; (6) the memoisation key of expensive fields names field, source and selection; the leaf and list resolvers settle every destination on every iteration (Fill or Fail). Not decided: equality with a reference evaluator for all schemas/queries, data-race freedom of outputNode.res, user resolvers.", c01)
 }
 
 // ---------------------------------------------------------------------------
